@@ -218,7 +218,10 @@ class Prover:
       key = norm(e.node) if e.node is not None else "implicit return None"
       prev = seen.get(key)
       entry = {"construct": key, "ok": ok, "text": text, "proper": proper_ok, "ptext": ptext}
-      if prev is None or (prev["ok"] and not ok) or (prev["proper"] and not proper_ok):
+      # one return statement may serve several paths (`return weak, factors` after an if-chain): the worst path speaks for the statement, and a path
+      # that releases factors speaks before one that releases none
+      if prev is None or (prev["ok"] and not ok) or (prev["proper"] and not proper_ok) or \
+         (prev["ok"] and prev["proper"] and "no factors" in prev["text"] and "no factors" not in text):
         seen[key] = entry
     if len(flags) > 1:
       s["ok"] = False
